@@ -112,34 +112,23 @@ theorem rebuild_dominates (c : Nat) (packs : List Pack) :
 
 open GitBugModel.Dag in
 /-- `read_witnesses_all`: the clocks after a merge dominate every pack of the remote entity. -/
-theorem merge_witnesses_remote (s : Store) (lh : Option String) (rh : String) (ce cc : Nat) (nh mp au : String)
+theorem merge_witnesses_remote (s : Store) (rid : String) (lh : Option String) (rh : String) (ce cc : Nat) (nh mp au : String)
     (re : Entity) (h : Dag.read s rh = .ok re) :
-    ∀ p ∈ re.packs, p.edit ≤ (merge s lh rh ce cc nh mp au).clockEdit := by
+    ∀ p ∈ re.packs, p.edit ≤ (merge s rid lh rh ce cc nh mp au).clockEdit := by
   intro p hp
   have hmax := C02.maxOf_ge (re.packs.map (·.edit)) p.edit (List.mem_map.mpr ⟨p, hp, rfl⟩)
-  have hmono : ∀ ce', ce' ≤ (merge s lh rh ce' cc nh mp au).clockEdit := fun ce' => C02.merge_clock_monotone s lh rh ce' cc nh mp au
   unfold merge
   simp only [h]
   split
   · simp; omega
   · split
     · simp; omega
-    · -- mergeExisting never lowers the clock it is given
-      rename_i l
-      have : max ce (maxOf (re.packs.map (·.edit))) ≤
-          (mergeExisting s re l rh (max ce (maxOf (re.packs.map (·.edit)))) (max cc (maxOf (re.packs.map (·.create)))) nh mp au).clockEdit := by
-        unfold mergeExisting
-        split
-        · simp
-        · split
-          · simp
-          · split
-            · simp
-            · unfold mergeDiverged
-              split
-              · simp
-              · simp only; split <;> (simp; omega)
-      omega
+    · split
+      · simp; omega
+      · rename_i l
+        have := C02.mergeExisting_clock_monotone s rh (max ce (maxOf (re.packs.map (·.edit))))
+          (max cc (maxOf (re.packs.map (·.create)))) nh mp au re l
+        omega
 
 /-- `written_dominates`: the edit time a commit gets (`Increment`) exceeds the clock, which
 dominates everything the repository has written, read or merged before. -/
